@@ -265,6 +265,31 @@ def exec_run(task, cd):
                 cwd_ok=r['cwd_after'] == r['cwd_before'], cwd_after=r['cwd_after'])
 
 
+def exec_subprocess(task, cd):
+    """the same invocation as a real OS process (what it leaves in its own process state cannot be seen then)"""
+    import subprocess
+    from harness import runner
+    log = os.path.join(cd.out, 'log')
+
+    def fill(t):
+        return t.replace('@HOME@', cd.home).replace('@LOG@', log)
+    cd.write({p: fill(t) for p, t in HELPERS.items()}, mode={'actprobe': 0o755})
+    cd.write({p: fill(t) for p, t in task['files'].items()})
+    env = dict(os.environ, PYTHONPATH=os.path.join(runner.REPO, 'src'), TMPDIR=cd.tmp, PYTHONWARNINGS='ignore', B='b0')
+    for n in ('A', 'K_E', 'X', 'EXACTLY_VERIF_TRACE'):
+        env.pop(n, None)
+    p = subprocess.run(['/venv/bin/python', os.path.join(runner.REPO, 'src', 'default-main-program-runner.py')]
+                       + task['argv'], cwd=cd.home, env=env, stdout=subprocess.PIPE, stderr=subprocess.PIPE, text=True,
+                       timeout=150)
+    lines = []
+    if os.path.exists(log):
+        with open(log, encoding='utf-8', errors='replace') as fh:
+            lines = fh.read().split('\n')
+    return dict(exit=p.returncode, exception=None, stdout=p.stdout[:20000], stderr=p.stderr[:6000], log=lines[:2000],
+                home=cd.home, tmp=cd.tmp, env_after=None, env_changed=[], cwd_ok=True, cwd_after=None,
+                how='subprocess')
+
+
 # ======================================================================================== projection
 CASE_LINE = re.compile(r'^case  (.+): \(\d+\.\d+s\) ([A-Z_]+)$')
 SDS_ROOT = re.compile(r'^(.*/exactly-[^/]+)(/.*)?$')
@@ -389,6 +414,8 @@ def compare(r, p, o):
     if clause_log:
         return clause_log
     want_env = {n: value(v) if v else None for n, v in r['penv'].items()}
+    if o.get('how') == 'subprocess':
+        return None
     if p['penv'] != want_env or p['env_changed']:
         return 'CasePure(environment of the process): %s changed %s, specification %s' % (p['penv'], p['env_changed'],
                                                                                          want_env)
@@ -449,28 +476,35 @@ def judge(ctx, r, task, o, stats, failing):
     if clause is None:
         return p
     stats['disagreements'] += 1
-    record = dict(kind='run', case=r, task=task, clause=clause, projected=p,
+    record = dict(kind='run', how=o.get('how', 'in-process'), case=r, task=task, clause=clause, projected=p,
                   observed={k: o.get(k) for k in ('exit', 'exception', 'traceback', 'stdout', 'stderr', 'log',
                                                   'env_after', 'env_changed', 'cwd_after', 'no_termination',
                                                   'worker_died', 'harness_exception')})
     size = len(r['log']) + 10 * len(r['idents'])
-    failing.append((size, '%s %s' % (clause.split(':')[0], brief(r)), record))
+    failing.append((size, '%s %s%s' % (clause.split(':')[0], brief(r),
+                                       ' (subprocess)' if o.get('how') == 'subprocess' else ''), record))
     return p
 
 
-def replay_runs(ctx, recs, label):
+def replay_runs(ctx, recs, label, subprocess_sample=0):
     tasks = [concretize(r) for r in recs]
     t0 = time.time()
+    rnd = random.Random(ctx.seed + 17)
+    multi = [j for j, r in enumerate(recs) if r['way'] == 'suite' and len(r['idents']) > 1]
+    sub_idx = rnd.sample(multi, min(subprocess_sample, len(multi)))
     with ctx.pool() as pool:
         obs = pool.map('harness.props.c17:exec_run', tasks, deadline=120, chunk=4)
-    stats = dict(runs=len(tasks), disagreements=0, wall_s=round(time.time() - t0, 1))
+        sub_obs = pool.map('harness.props.c17:exec_subprocess', [tasks[j] for j in sub_idx], deadline=180, chunk=1)
+    stats = dict(runs=len(tasks), subprocess_runs=len(sub_idx), disagreements=0, wall_s=round(time.time() - t0, 1))
     failing, projs = [], []
     for r, t, o in zip(recs, tasks, obs):
         projs.append(judge(ctx, r, t, o, stats, failing))
+    for j, o in zip(sub_idx, sub_obs):
+        judge(ctx, recs[j], tasks[j], o, stats, failing)
     failing.sort(key=lambda f: f[0])         # smallest first: the replay files written are the minimal examples
     for _, sig, record in failing:
         ctx.fail(sig, record)
-    ctx.cov['traces_validated_against_impl'] += len(tasks)
+    ctx.cov['traces_validated_against_impl'] += len(tasks) + len(sub_idx)
     by = {}
     for r in recs:
         k = '%s/%s' % (r['fam'], r['way'])
@@ -582,7 +616,8 @@ def negative_controls(ctx, recs, obs, projs):
         if compare(e, p, obs[j]) is None:
             raise core.MachineryFailure('negative control accepted (%s): %s' % (what, brief(recs[j])))
         kinds[what] = kinds.get(what, 0) + 1
-    if len(kinds) < 14:
+    if len(kinds) < 14 and not ctx.violations:
+        # (with violations the run fails anyway; then there may be too few agreeing runs to corrupt)
         raise core.MachineryFailure('negative controls: only %s exercised' % sorted(kinds))
     ctx.cov['negative_controls_rejected'] += sum(kinds.values())
     ctx.cov['negative_control_kinds'] = kinds
@@ -648,6 +683,8 @@ def run(ctx):
         for name, c, env in prepared:
             res = ctx.tlc('SuiteCases', cfg(**c), coverage=True, name='mc-' + name, env=env)
             ctx.require_coverage(res, ACTIONS if 'merge' in c['families'] else HIST_ACTIONS)
+            if name == 'main':
+                ctx.cov['checker_cmd'] = res.cmd.replace(res.run_dir, '<scratch>')
     finally:
         for th, _ in background:
             th.join()
@@ -669,39 +706,54 @@ def run(ctx):
                 recs.append(r)
     phases['tlc'] = round(time.time() - t0, 1)
 
-    tasks, obs, projs = replay_runs(ctx, recs, 'all runs')
+    tasks, obs, projs = replay_runs(ctx, recs, 'all runs', subprocess_sample=(16 if quick else 160))
     phases['replay'] = round(time.time() - t0 - phases['tlc'], 1)
     negative_controls(ctx, recs, obs, projs)
-    for fam, pick in (('hist', lambda r: len(r['h']) == 2 and r['h'][0][0] == 'envAll' and r['way'] == 'suite'),
-                      ('merge', lambda r: r['way'] == 'suite' and len(r['s0']) == 3 and len(r['cs']) == 6),
-                      ('merge', lambda r: r['way'] == 'option' and r['tgt'] == 1 and len(r['s0']) == 2),
-                      ('sds', lambda r: r['way'] == 'suite' and len(r['sk']) == 1)):
+    for fam, pick in (('hist', lambda r: r['way'] == 'suite' and [k[0] for k in r['h']] == ['envAll', 'expand']),
+                      ('hist', lambda r: r['way'] == 'suite' and [list(k) for k in r['h']] == [['cdTmp', 'hard'], ['def', 'pass']]),
+                      ('merge', lambda r: r['way'] == 'suite' and sorted(r['s0']) == ['cleanup', 'conf', 'setup']
+                       and len(r['cs']) == 6),
+                      ('merge', lambda r: r['way'] == 'option' and r['tgt'] == 2 and sorted(r['s0']) == ['assert', 'cleanup']
+                       and len(r['cs']) == 6),
+                      ('sds', lambda r: r['way'] == 'suite' and sorted(r['sk']) == ['defPath'])):
         for j, r in enumerate(recs):
             if r['fam'] == fam and pick(r):
                 ctx.sample(dict(input=brief(r), argv=tasks[j]['argv'], files=tasks[j]['files'],
                                 expected=dict(idents=r['idents'],
-                                              records=['%s/%s/%s/%s case %d sandbox %d cwd=%s A=%s B=%s'
+                                              records=['%s/%s/%s/%s case %d sandbox %d cwd=%s A=%s B=%s pp=%s'
                                                        % (e['org'], e['ph'], e['k'], e['tag'], e['c'], e['sds'], e['cwd'],
-                                                          value(e['A']) or '-', value(e['B']) or '-') for e in r['log']]),
+                                                          value(e['A']) or '-', value(e['B']) or '-', e['pp'])
+                                                       for e in r['log']]),
                                 observed=dict(idents=projs[j]['idents'], penv=projs[j]['penv'],
-                                              records=len(projs[j]['log']))), limit=4)
+                                              records=['%s/%s/%s/%s %s A=%s B=%s pp=%s'
+                                                       % (g.get('org'), g.get('ph'), g.get('k'), g.get('tag'),
+                                                          ('cwd=' + g['cwd']) if 'cwd' in g else '', g.get('A') or '-',
+                                                          g.get('B') or '-', g.get('pp')) for g in projs[j]['log']],
+                                              sandboxes=sorted(set(g['root'].rsplit('/', 1)[-1] for g in projs[j]['log']
+                                                                   if 'root' in g)))), limit=5)
                 break
     ctx.cov['exhaustive'] = True
-    if quick:
-        bounds = ('hist = every kind alone (20 mutations with ending PASS; 6 core mutations also ending in FAIL and '
-                  'HARD_ERROR; alone also run standalone, with --suite and beside exactly.suite) and every pair (any '
-                  'kind, one of 7 observer kinds); merge = every set s0 of the 6 phases for the root suite (the '
-                  'sub-suite gets the complement) x case contents in {none, all, s0, complement}, each run via the '
-                  'suite and each of the two cases with --suite and beside exactly.suite; sds = each of 20 kinds of '
-                  'sandbox dependent instruction alone and all together, 2 cases, via the suite and with --suite')
-    else:
-        bounds = ('hist = every kind alone, every pair of kinds, every triple (any kind, then 2 of 12 later kinds), '
-                  'every sequence of <= 4 core mutations, + 1500 seeded random histories of 4-7 cases judged by TLC '
-                  '(family file); merge = every pair (s0, cs) of sets of the 6 phases (4096), sub-suite with the '
-                  'complement of s0, all three ways; sds = 20 kinds alone and together, 2 and 3 cases')
-    ctx.cov['rule'] = ('every invocation TLC enumerates from SuiteCases.tla, rendered as files and executed in process: '
-                       + bounds + '; non-trivial = every invocation but the lone unchanged observer case, distinct by '
-                       '(input, way of invocation, case)')
+    main = plans(ctx.tier)[0][1]
+    n_kinds = len(ALL_MUTS) + len(CORE_MUTS) * (len(main.get('ends', ENDS)) - 1)
+    later = main.get('later', ALL_MUTS)
+    n_later = len(later) + len([m for m in later if m in CORE_MUTS]) * (len(main.get('ends', ENDS)) - 1)
+    bounds = ('hist = every kind of case alone (%d mutations ending in PASS; the %d core mutations also with the endings %s: '
+              '%d kinds; alone also run standalone, with --suite and beside exactly.suite) and every pair (any kind, then '
+              'one of %d kinds)%s; merge = every set s0 of the 6 phases for the root suite (the sub-suite gets the '
+              'complement) x case contents in %s, each run via the suite and each of the two cases with --suite and beside '
+              'exactly.suite; sds = each of %d kinds of sandbox dependent instruction alone and all together, %s cases, '
+              'via the suite and with --suite'
+              % (len(ALL_MUTS), len(CORE_MUTS), '/'.join(e for e in main.get('ends', ENDS) if e != 'pass'), n_kinds,
+                 n_later, '' if quick else ', every sequence of <= 3 core mutations',
+                 {'two': '{all phases, complement of s0}', 'all': 'every subset of the phases (4096 pairs)'}[
+                     main['merge_case_sets']], len(SDS_KINDS), ' and '.join(map(str, main['sds_cases']))))
+    if not quick:
+        bounds += ('; + hist: every triple (any kind, then 2 of 10 later kinds), every sequence of <= 4 core mutations, '
+                   'and 1500 seeded random histories of 4-7 cases of any kind, judged by TLC (family file)')
+    ctx.cov['rule'] = ('every invocation TLC enumerates from SuiteCases.tla, rendered as files and executed in process (a '
+                       'sample of the suite runs again as a real subprocess): ' + bounds + '; non-trivial = every '
+                       'invocation but the lone unchanged observer case, distinct by (input, way of invocation, case)')
+    ctx.cov['constants'] = {name: c for name, c, _ in plans(ctx.tier)}
     ctx.assumptions += [
         'the settings are observed by OS processes (sh scripts) that append a record to a file outside the sandbox: '
         'environment of the set they run in, physical current directory, names in act/ and tmp/, stdin (action to '
@@ -723,8 +775,9 @@ def run(ctx):
 def replay(ctx, rec):
     r = rec['record']
     t = r['task']
+    f = 'harness.props.c17:exec_subprocess' if r.get('how') == 'subprocess' else 'harness.props.c17:exec_run'
     with ctx.pool(workers=1) as pool:
-        o = pool.map('harness.props.c17:exec_run', [t], deadline=180)[0]
+        o = pool.map(f, [t], deadline=180)[0]
     bad = any(o.get(k) for k in ('no_termination', 'worker_died', 'harness_exception'))
     p = dict(idents=[], log=[], penv={}, cwd_ok=False, env_changed=[]) if bad else project(r['case'], t, o)
     clause = compare(r['case'], p, o)
